@@ -52,7 +52,7 @@
 //      outside that subtree: the real hook log projected on the outside modules equals the reference log of the program
 //      with that subtree removed.
 //   O8 add() calls that must be refused are refused; a refused module never gets a hook.
-// argv: bfs <nmax> <depth> <k> <K> [xcheck_nmax [xcheck_depth [cap_fail [cap_cycle [maxdev_at_nmax]]]]]   |   replay <P-spec> <Q-spec>
+// argv: bfs <nmax> <depth> <k> <K> [xcheck_nmax [xcheck_depth [cap_fail [cap_cycle [maxdev_at_nmax [cap_stop [n_lo [n_hi]]]]]]]]   |   replay <P-spec> <Q-spec>
 //       maxdev_at_nmax > 0: trees with exactly nmax nodes get at most that many modules with a mode other than ok
 #include "hist/hist.h"
 #include <tbox/base/json.hpp>
@@ -810,11 +810,12 @@ int main(int argc, char **argv) {
   int xn = argc > 6 ? atoi(argv[6]) : 0; int xdepth = argc > 7 ? atoi(argv[7]) : depth; if (xdepth > depth) xdepth = depth;
   if (argc > 8) g_cap_fail = atoi(argv[8]); if (argc > 9) g_cap_cycle = atoi(argv[9]);
   int maxdev = argc > 10 ? atoi(argv[10]) : 0; if (argc > 11) g_cap_stop = atoi(argv[11]);
+  int nlo = argc > 12 ? atoi(argv[12]) : 1, nhi = argc > 13 ? atoi(argv[13]) : nmax; if (nhi > nmax) nhi = nmax;   // only trees with nlo..nhi nodes (the partition k/K is over those)
   if (nmax >= MAXN) nmax = MAXN - 1; if (depth > MAXSEQ) depth = MAXSEQ;
   hx::install_crash_reporter("C11-crash");
   g_deadline = hx::deadline_from_env(1200);
   long base = 0;
-  for (int n = 1; n <= nmax && !g_capped; n++) {
+  for (int n = nlo; n <= nhi && !g_capped; n++) {
     std::vector<std::vector<int>> sh; shapes(n, sh);
     int nvar = n == 1 ? 1 : (n < nmax ? NVAR : 2);
     for (size_t si = 0; si < sh.size() && !g_capped; si++)
